@@ -14,7 +14,7 @@ BUDGET = {"quick": {"cases": 8000}, "thorough": {"cases": 120000, "soft_deadline
 RULE = (
     "case = (network n<=6 [7]; final strategy with options: bfs, dfs, block(find_maa, optimize_source_nodes, exact), scc(find_maa), "
     "minimal-space(skip_ignored), attractor-seed (bfs/dfs also with level/stack limits), or any of them stopped by a generated size/level/stack limit; in 20% of the cases max_motifs_per_node in {1,2,3,5} (a limit error = no completion) and completed with "
-    "skip_remaining(); for bfs/dfs/min/attr a pre-history of 0-5 plain expansion calls with arbitrary limits/start nodes); "
+    "skip_remaining() or skip_to_minimal() on every stub; for bfs/dfs/min/attr a pre-history of 0-5 plain expansion calls with arbitrary limits/start nodes); "
     "precondition = the strategy reported completion (or the diagram was completed by skipping); oracle = minimal_trap_spaces() "
     "equals the brute-force inclusion-minimal trap spaces as a duplicate-free list and node_is_minimal(i) <=> minimal for every "
     "expanded node; non-trivial = >=2 minimal trap spaces and >=1 unexpanded or skipped node in the result"
@@ -42,6 +42,8 @@ def _case(draw, max_n):
         c["pre"] = draw(ops.steps(ops.PLAIN_OPS, n, 1, 5))
     if draw(st.integers(0, 3)) == 0:
         c["size"] = draw(st.sampled_from((1, 2, 3, 4, 6, 8)))
+    # how an early-stopped diagram is completed: skip_remaining(), or skip_to_minimal() on every stub in a generated order
+    c["complete_by"] = draw(st.sampled_from(("skip_remaining", "skip_to_minimal:id", "skip_to_minimal:rev")))
     return c
 
 
@@ -100,10 +102,22 @@ def run_case(case) -> Result:
             if case["size"] is None and fin.get("level") is None and fin.get("stack") is None:
                 res.violate(f"{tag}:unlimited-strategy-did-not-report-completion", ret=str(out.ret))
                 return res
-            out2 = h.apply({"op": "skiprem"})
-            if out2.kind != "ok":
-                res.violate("unexpected-RuntimeError:skiprem", error=str(out2.exc))
-                return res
+            how = case.get("complete_by", "skip_remaining")
+            if how == "skip_remaining":
+                out2 = h.apply({"op": "skiprem"})
+                if out2.kind != "ok":
+                    res.violate("unexpected-RuntimeError:skiprem", error=str(out2.exc))
+                    return res
+            else:
+                for _round in range(64):
+                    stubs = list(h.sd.stub_ids())
+                    if not stubs:
+                        break
+                    i = stubs[0] if how.endswith(":id") else stubs[-1]
+                    out2 = h.apply({"op": "skip", "node": i})
+                    if out2.kind != "ok":
+                        res.violate("unexpected-RuntimeError:skip_to_minimal", error=str(out2.exc))
+                        return res
             skipped_rest = True
     except Nonterminating:
         res.excluded = "nonterminating"
@@ -112,7 +126,7 @@ def run_case(case) -> Result:
         res.violate(f"exception:{e.kind}@{e.site}", error=str(e), tb=e.tb)
         return res
     sd = h.sd
-    sdcheck.check_minimal(sd, net, res, f"{tag}{'+skip_remaining' if skipped_rest else ''}")
+    sdcheck.check_minimal(sd, net, res, f"{tag}{'+' + case.get('complete_by', 'skip_remaining').split(':')[0] if skipped_rest else ''}")
     pruned = any(True for _ in sd.stub_ids()) or any(sd.node_data(i)["skipped"] for i in sd.node_ids())
     res.nontrivial = len(net.min_traps()) >= 2 and pruned
     res.label(f"n={net.n}", "final:" + tag, "pre" if case["pre"] else "fresh")
